@@ -271,7 +271,9 @@ def run(pid: str, tier: str, seed: int, selftest=False, replay=None) -> int:
     pcases = []
     for k in range(60 if quick else 600):
         w = rng.choice([8, 16])
-        n = rng.choice([1, 2, 3, 4, 5])
+        n = rng.choice([1, 2, 3, 4, 5]) if k % 3 else rng.choice([6, 6, 7, 7, 8, 9, 10, 11, 12])     # every field count 1..12 (any reduction tree shape)
+        if n > 5:
+            w = 16
         offs = sorted(rng.sample(range(0, w), min(n, w)))
         n = len(offs)
         ty = builtin.IntegerType(w)
@@ -305,7 +307,7 @@ def run(pid: str, tier: str, seed: int, selftest=False, replay=None) -> int:
         except Exception as ex:
             raise MachineryError(f"pack_bitlist harness function invalid: {ex}")
         img = image_of(f)
-        dom = [-1, 0, 1, 2, 3, 2 ** (w - 1) - 1, -(2 ** (w - 1))] if n <= 3 else [-1, 0, 1, 5]
+        dom = [-1, 0, 1, 2, 3, 2 ** (w - 1) - 1, -(2 ** (w - 1))] if n <= 3 else ([-1, 0, 1, 5] if n <= 5 else [0, 1])
         pcases.append({"name": f"pack:w{w}:{offs}:{sorted(const_pos.items())}", "A": img, "B": img, "argdom": [dom] * n, "opqdom": [[0]],
                        "extra": {"offs": offs, "w": w}, "text": str(f)})
     r, per = run_pair_batch(pid, "packbits", pcases, tag="pack")
